@@ -33,28 +33,124 @@ Val(c, i) == LET id == c.layout[i] IN
 
 (* ---------- opaque field encodings ---------- *)
 DefaultEnc == [serial |-> "small", validity |-> "utc", iname |-> "printable", sname |-> "printable",
-               key |-> "p256", ikey |-> "p256", uid |-> "none"]
-Serials == {"small", "zero", "neg", "long20", "long21"}
+               key |-> "p256", ikey |-> "p256", uid |-> "none", uext |-> "std"]
+\* Serial numbers by VALUE (sign, magnitude digits); the contents octets are IntOctets(value).  The set is the
+\* boundary set of the INTEGER encoding for 1, 2, 3, 20 and 21 octets: zero; positive numbers with and without the
+\* 00 octet in front (7f | 00 80, 00 ff | 01 00, 00 80 00, 7f ff..ff | 00 80 5a..5a); negative numbers with and
+\* without the ff octet in front (-1 = ff, -127 = 81, -128 = 80 | -129 = ff 7f, -255 = ff 01, -256 = ff 00,
+\* -32768 = 80 00 | -32769 = ff 7f ff) and at 20 / 21 octets (-2^159 = 80 00..00, -2^159+1 = 80 00..01,
+\* -2^159-1 = ff 7f ff..ff).  RFC 5280 4.1.2.2 wants positive serial numbers of at most 20 octets and tells users to
+\* "be prepared to gracefully handle" the others, which exist in the logs.
+Rep(x, n) == [i \in 1..n |-> x]
+SerialValue ==
+  [small   |-> IntV(FALSE, <<1, 226, 64>>),        other   |-> IntV(FALSE, <<1, 226, 65>>),
+   zero    |-> IntV(FALSE, <<>>),                  p127    |-> IntV(FALSE, <<127>>),
+   p128    |-> IntV(FALSE, <<128>>),               p255    |-> IntV(FALSE, <<255>>),
+   p256    |-> IntV(FALSE, <<1, 0>>),              p32768  |-> IntV(FALSE, <<128, 0>>),
+   long20  |-> IntV(FALSE, <<127>> \o Rep(165, 19)), max20 |-> IntV(FALSE, <<127>> \o Rep(255, 19)),
+   long21  |-> IntV(FALSE, <<128>> \o Rep(90, 19)),
+   m1      |-> IntV(TRUE, <<1>>),                  m127    |-> IntV(TRUE, <<127>>),
+   m128    |-> IntV(TRUE, <<128>>),                neg     |-> IntV(TRUE, <<129>>),
+   m255    |-> IntV(TRUE, <<255>>),                m256    |-> IntV(TRUE, <<1, 0>>),
+   m32768  |-> IntV(TRUE, <<128, 0>>),             m32769  |-> IntV(TRUE, <<128, 1>>),
+   min20   |-> IntV(TRUE, <<128>> \o Rep(0, 19)),  min20p1 |-> IntV(TRUE, <<127>> \o Rep(255, 19)),
+   neg21   |-> IntV(TRUE, <<128>> \o Rep(0, 18) \o <<1>>)]
+Serials == DOMAIN SerialValue \ {"other"}
+SerialOctets == [n \in DOMAIN SerialValue |-> IntOctets(SerialValue[n])]
+\* lengths and object identifier arcs at the boundaries of their encodings (one, two, three length octets; one to
+\* five subidentifier octets); ULens are lengths of the value of the unknown extension U2, UArcs last arcs of the
+\* identifier of the unknown extension U1 (see UExts below)
+LenBoundary == {0, 1, 127, 128, 129, 255, 256, 257, 65535, 65536, 65537, 16777215, 16777216}
+ArcBoundary == {0, 1, 127, 128, 129, 16383, 16384, 2097151, 2097152, 268435455, 268435456, 2147483647}
+\* the laws of the DER primitives on the serial numbers of the case space, on every one-octet string, on two-octet
+\* strings with a boundary octet in either place, on 3-, 20- and 21-octet strings of boundary octets, and on the
+\* boundaries of lengths and arcs (evaluated once)
+BoundaryOctets == {0, 1, 127, 128, 129, 254, 255}
+ASSUME ModelLaws ==
+  /\ \A n \in DOMAIN SerialValue : IntEncodingLaw(SerialValue[n]) /\ IntRoundTripLaw(SerialOctets[n])
+  /\ \A a \in 0..255 : IntRoundTripLaw(<<a>>) /\ \A b \in BoundaryOctets : IntRoundTripLaw(<<a, b>>) /\ IntRoundTripLaw(<<b, a>>)
+  /\ \A a, b, c3 \in BoundaryOctets : IntRoundTripLaw(<<a, b, c3>>) /\ IntRoundTripLaw(<<a, b, c3>> \o Rep(0, 17)) /\ IntRoundTripLaw(<<a, b>> \o Rep(255, 18) \o <<c3>>)
+  /\ \A a \in 1..255, b \in BoundaryOctets : IntEncodingLaw(IntV(TRUE, <<a, b>>)) /\ IntEncodingLaw(IntV(FALSE, <<a, b>>)) /\ IntEncodingLaw(IntV(TRUE, <<a>> \o Rep(0, 18) \o <<b>>))
+  \* the values named in the comment have the octets named in the comment
+  /\ SerialOctets["m128"] = <<128>> /\ SerialOctets["neg"] = <<255, 127>> /\ SerialOctets["m32768"] = <<128, 0>>
+  /\ SerialOctets["p128"] = <<0, 128>> /\ SerialOctets["p32768"] = <<0, 128, 0>> /\ SerialOctets["zero"] = <<0>>
+  /\ SerialOctets["min20"] = <<128>> \o Rep(0, 19) /\ SerialOctets["min20p1"] = <<128>> \o Rep(0, 18) \o <<1>>
+  /\ SerialOctets["neg21"] = <<255, 127>> \o Rep(255, 19) /\ SerialOctets["max20"] = <<127>> \o Rep(255, 19)
+  /\ SerialOctets["long21"] = <<0, 128>> \o Rep(90, 19) /\ SerialOctets["m256"] = <<255, 0>> /\ SerialOctets["m1"] = <<255>>
+  /\ SctFormLaw(Entry("k1", "tbs1"), Entry("k1", "tbs2")) /\ SctFormLaw(Entry("k1", "tbs1"), Entry("k2", "tbs1"))
+  /\ \A n \in LenBoundary : LenLaw(n)
+  /\ \A a \in ArcBoundary : ArcLaw(a)
+  /\ LenOctets(127) = <<127>> /\ LenOctets(128) = <<129, 128>> /\ LenOctets(256) = <<130, 1, 0>> /\ LenOctets(65536) = <<131, 1, 0, 0>>
+  /\ ArcOctets(127) = <<127>> /\ ArcOctets(128) = <<129, 0>> /\ ArcOctets(16384) = <<129, 128, 0>> /\ ArcOctets(11129) = <<214, 121>>
 Validities == {"utc", "utc50", "utcgen", "gengen"}        \* UTCTime through 2049, GeneralizedTime from 2050 (RFC 5280 4.1.2.5)
 INames == {"printable", "utf8", "t61", "bmp", "multirdn", "utf8sp"}
 SNames == INames \cup {"empty"}
 Keys == {"p256", "p384", "rsa2048", "ed25519"}
 UIDs == {"none", "iss", "subj", "both", "issempty"}   \* issempty: a zero-length BIT STRING
+\* U1 and U2 stand for extensions the code does not know.  Their identifiers and values are opaque to the
+\* specification, but an implementation that re-encodes writes the identifier's arcs and every enclosing length
+\* afresh: "std" is 1.3.6.1.4.1.99999.1 / .2 with values of 200 / 300 octets; aN gives U1 the identifier
+\* 1.3.6.1.4.1.99999.1.N (N at the boundaries of the base-128 subidentifier), "joint" gives it 2.999.3 (the first two
+\* arcs share one subidentifier, 1079, of two octets); lN gives U2 a value of exactly N octets (N at the boundaries
+\* of the length octets; 0 = an empty extnValue).
+UArc == [a0 |-> 0, a127 |-> 127, a128 |-> 128, a16383 |-> 16383, a16384 |-> 16384, a2097151 |-> 2097151,
+         a2097152 |-> 2097152, a268435455 |-> 268435455, a268435456 |-> 268435456, amax |-> 2147483647]
+ULen == [l0 |-> 0, l1 |-> 1, l127 |-> 127, l128 |-> 128, l255 |-> 255, l256 |-> 256, l65535 |-> 65535, l65536 |-> 65536]
+UExts == {"std", "joint"} \cup DOMAIN UArc \cup DOMAIN ULen
+ASSUME \A t \in DOMAIN UArc : UArc[t] \in ArcBoundary
+ASSUME \A t \in DOMAIN ULen : ULen[t] \in LenBoundary
+ULayouts == {<<"U1", "AKI", "SAN", "POISON", "U2">>, <<"POISON", "U2", "U1">>, <<"U2", "U1", "AKI", "POISON">>}
 EncSet ==
   {[DefaultEnc EXCEPT !.serial = x] : x \in Serials} \cup {[DefaultEnc EXCEPT !.validity = x] : x \in Validities} \cup
   {[DefaultEnc EXCEPT !.iname = x] : x \in INames} \cup {[DefaultEnc EXCEPT !.sname = x] : x \in SNames} \cup
   {[DefaultEnc EXCEPT !.key = x] : x \in Keys} \cup {[DefaultEnc EXCEPT !.ikey = x] : x \in Keys} \cup
   {[DefaultEnc EXCEPT !.uid = x] : x \in UIDs} \cup
-  {[serial |-> "neg", validity |-> "gengen", iname |-> "utf8", sname |-> "t61", key |-> "rsa2048", ikey |-> "p384", uid |-> "both"],
-   [serial |-> "long21", validity |-> "utcgen", iname |-> "multirdn", sname |-> "empty", key |-> "ed25519", ikey |-> "rsa2048", uid |-> "iss"],
-   [serial |-> "long20", validity |-> "gengen", iname |-> "bmp", sname |-> "utf8sp", key |-> "p384", ikey |-> "ed25519", uid |-> "subj"]}
+  {[serial |-> "neg", validity |-> "gengen", iname |-> "utf8", sname |-> "t61", key |-> "rsa2048", ikey |-> "p384", uid |-> "both", uext |-> "a128"],
+   [serial |-> "long21", validity |-> "utcgen", iname |-> "multirdn", sname |-> "empty", key |-> "ed25519", ikey |-> "rsa2048", uid |-> "iss", uext |-> "l256"],
+   [serial |-> "long20", validity |-> "gengen", iname |-> "bmp", sname |-> "utf8sp", key |-> "p384", ikey |-> "ed25519", uid |-> "subj", uext |-> "joint"],
+   [serial |-> "min20", validity |-> "utcgen", iname |-> "t61", sname |-> "utf8", key |-> "p256", ikey |-> "rsa2048", uid |-> "issempty", uext |-> "l128"],
+   [serial |-> "m128", validity |-> "utc50", iname |-> "utf8sp", sname |-> "bmp", key |-> "rsa2048", ikey |-> "p256", uid |-> "subj", uext |-> "amax"]}
 EncLayouts == {<<"POISON">>, <<"AKI", "POISON", "SAN">>, <<"SAN", "BC", "POISON">>, <<"POISON", "AKI">>,
                <<"U1", "AKI", "SAN", "POISON", "U2">>}
 
-(* ---------- SCT lists ---------- *)
-SctKinds == {"good", "good2", "ext", "othertbs", "otherikh"}
-SctLists == UNION {[1..n -> SctKinds] : n \in 1..SctMax}
-DefaultScts(s) == CASE Len(s) % 3 = 0 -> <<"good">> [] Len(s) % 3 = 1 -> <<"othertbs", "good">> [] OTHER -> <<"good", "otherikh", "good2">>
+(* ---------- logs, SCT kinds, SCT lists ---------- *)
+\* the logs: key type, hash function of the signature (RFC 6962 2.1.4 has SHA-256 throughout; the hash is declared in
+\* the signature and the library follows the declaration - C05, clause HashSupport - so a log that signs with another
+\* hash function still "signed that precertificate"), and whether RFC 6962 2.1.4 knows the key
+LogTable ==
+  [LOG1 |-> [name |-> "LOG1", scheme |-> "ecdsa", key |-> "p256",    hash |-> "sha256", compliant |-> TRUE],
+   LOG2 |-> [name |-> "LOG2", scheme |-> "rsa",   key |-> "rsa2048", hash |-> "sha256", compliant |-> TRUE],
+   LOG3 |-> [name |-> "LOG3", scheme |-> "ecdsa", key |-> "p384",    hash |-> "sha384", compliant |-> FALSE],
+   LOG4 |-> [name |-> "LOG4", scheme |-> "ecdsa", key |-> "p256",    hash |-> "sha512", compliant |-> TRUE],
+   LOG5 |-> [name |-> "LOG5", scheme |-> "rsa",   key |-> "rsa3072", hash |-> "sha384", compliant |-> TRUE],
+   LOG6 |-> [name |-> "LOG6", scheme |-> "ecdsa", key |-> "p521",    hash |-> "sha256", compliant |-> FALSE]]
+LogNames == DOMAIN LogTable
+\* an SCT kind: which log, the form of the signature value, over what the log signed ("this" = the entry of this
+\* precertificate, "othertbs" = another TBSCertificate, "otherikh" = this TBSCertificate under another issuer key
+\* hash), and whether the SCT carries extensions
+K(log, form, over, ext) == [log |-> log, form |-> form, over |-> over, ext |-> ext]
+Overs == {"this", "othertbs", "otherikh"}
+G == K("LOG1", "exact", "this", FALSE)
+G2 == K("LOG2", "exact", "this", FALSE)
+BaseKinds == {G, G2, K("LOG1", "exact", "this", TRUE), K("LOG1", "exact", "othertbs", FALSE), K("LOG1", "exact", "otherikh", FALSE)}
+AllKinds ==
+  {K(l, f, "this", FALSE) : l \in LogNames, f \in ExactForms \cup TrailingForms \cup BrokenForms \cup {"trail00", "cut"}} \cup
+  {K(l, "exact", o, e) : l \in LogNames, o \in Overs, e \in BOOLEAN} \cup
+  \* octets after the value do not make another entry's signature this entry's
+  {K(l, f, o, FALSE) : l \in {"LOG1", "LOG3"}, f \in TrailingForms, o \in Overs}
+Kinds == {k \in AllKinds : k.form \in SigForms(LogTable[k.log].scheme)}
+\* lists: every list of 1..SctMax base kinds; every kind alone, first and last of a list
+SctLists == UNION {[1..n -> BaseKinds] : n \in 1..SctMax} \cup
+            UNION {{<<k>>, <<G, k>>, <<k, G2, G>>} : k \in Kinds}
+T1 == K("LOG1", "trail0000", "this", FALSE)
+T3 == K("LOG3", "trail00", "this", FALSE)
+\* every layout case carries a list that mixes verifying and non-verifying SCTs; under the "std" criticality pattern
+\* one of them is a signature value with trailing octets
+DefaultScts(s, pat) ==
+  LET extra(k) == IF pat = "std" THEN <<k>> ELSE <<>> IN
+  CASE Len(s) % 3 = 0 -> <<G>>
+    [] Len(s) % 3 = 1 -> <<K("LOG1", "exact", "othertbs", FALSE), G>> \o extra(T1)
+    [] OTHER -> <<G, K("LOG1", "exact", "otherikh", FALSE), G2>> \o extra(T3)
 
 (* ---------- cases ---------- *)
 Case(s, pat, mode, preAki, preEku, enc, scts) ==
@@ -66,13 +162,16 @@ Case(s, pat, mode, preAki, preEku, enc, scts) ==
 \* The precertificate carries k1 (k1full under the "alt" pattern); the pre-issuer none or any of k1, k2, k2full, isonly.
 Modes == {<<"direct", "none", TRUE>>, <<"pre", "none", TRUE>>, <<"pre", "k1", TRUE>>, <<"pre", "k2", TRUE>>,
           <<"pre", "k2full", TRUE>>, <<"pre", "isonly", TRUE>>, <<"pre", "k2", FALSE>>}
-LayoutCases == {Case(s, pat, m[1], m[2], m[3], DefaultEnc, DefaultScts(s)) : s \in Layouts \cup DupLayouts, pat \in CritPats, m \in Modes}
-EncCases == {Case(s, "std", m[1], m[2], m[3], e, <<"good">>) :
+LayoutCases == {Case(s, pat, m[1], m[2], m[3], DefaultEnc, DefaultScts(s, pat)) : s \in Layouts \cup DupLayouts, pat \in CritPats, m \in Modes}
+EncCases == {Case(s, "std", m[1], m[2], m[3], e, <<G>>) :
                 s \in EncLayouts, e \in EncSet, m \in {<<"direct", "none", TRUE>>, <<"pre", "k2", TRUE>>, <<"pre", "none", TRUE>>,
                                                        <<"pre", "k2full", TRUE>>}}
+UCases == {Case(s, pat, m[1], m[2], m[3], [DefaultEnc EXCEPT !.uext = x], <<G>>) :
+              s \in ULayouts, pat \in CritPats, x \in UExts \ {"std"},
+              m \in {<<"direct", "none", TRUE>>, <<"pre", "k2", TRUE>>, <<"pre", "none", TRUE>>}}
 SctCases == {Case(<<"AKI", "POISON", "SAN">>, "std", m[1], m[2], m[3], DefaultEnc, l) :
                 l \in SctLists, m \in {<<"direct", "none", TRUE>>, <<"pre", "k2", TRUE>>}}
-Cases == LayoutCases \cup EncCases \cup SctCases
+Cases == LayoutCases \cup EncCases \cup UCases \cup SctCases
 
 Name(n, enc) == [n |-> n, enc |-> enc]
 TBSOf(c) ==
@@ -84,13 +183,44 @@ TBSOf(c) ==
 PreOf(c) == IF c.mode = "direct" THEN None
             ELSE [k |-> "pre", issuer |-> Name("CA", c.enc.iname), aki |-> c.preAki, eku |-> c.preEku]
 
-\* the SCT bodies of the model-level round trip law: token strings that contain length-like tokens
-SctBody == [x \in SctKinds |-> CASE x = "good" -> <<7>> [] x = "good2" -> <<1, 0>> [] x = "ext" -> <<2, 1, 1>>
-                                 [] x = "othertbs" -> <<0>> [] OTHER -> <<3, 3, 3, 1>>]
+\* the SCT bodies of the model-level round trip law: token strings that contain length-like tokens (the signature
+\* forms with trailing octets make bodies that end in zeros - tokens that look like the length of an empty item)
+SctBody(k) == CASE k.form \in {"trail00", "trail0000"} -> <<2, 0, 0>>
+                [] k.form \in TrailingForms -> <<1, 0, 4, 1, 0>>
+                [] k.log = "LOG2" -> <<1, 0>>
+                [] k.ext -> <<2, 1, 1>>
+                [] k.over = "othertbs" -> <<0>>
+                [] k.over = "otherikh" -> <<3, 3, 3, 1>>
+                [] OTHER -> <<7>>
 
 VARIABLE c
 Init == c \in Cases
 Next == UNCHANGED c
+
+\* the model's verdict on every SCT of the case, against the entry of either route
+ChainEntry == LET t == TBSOf(c)  pre == PreOf(c) IN
+  IF pre = None THEN PrecertRouteEntry(t, None, "caKey", "rootKey") ELSE PrecertRouteEntry(t, pre, "preKey", "caKey")
+EmbeddedEntry == LET f == Final(TBSOf(c), PreOf(c), "scts") IN IF IsErr(f) THEN f ELSE EmbeddedRouteEntry(f, "caKey")
+SctOf(k, pr) == [log |-> k.log, form |-> k.form,
+                 over |-> IF IsErr(pr) THEN pr
+                          ELSE CASE k.over = "this" -> pr
+                                 [] k.over = "othertbs" -> Entry(pr.ikh, [pr.tbs EXCEPT !.serial = "other"])
+                                 [] OTHER -> Entry("otherKey", pr.tbs)]
+\* pr: the entry the log was shown (the precertificate route's); entry: the entry the verifier computes
+Verdict(k, pr, entry) == LET sct == SctOf(k, pr)  log == LogTable[k.log] IN
+  [plain |-> VerifySCT(sct, log, entry, FALSE), optin |-> VerifySCT(sct, log, entry, TRUE)]
+Verdicts(pr, entry) == [i \in DOMAIN c.scts |-> Verdict(c.scts[i], pr, entry)]
+\* "an embedded SCT verifies exactly when the log signed that precertificate": where both routes give an entry the
+\* verdicts agree, and they are "the log signed this entry and what it delivered is a signature value"
+SctLaw ==
+  LET pr == ChainEntry  er == EmbeddedEntry  vc == Verdicts(pr, pr)  ve == Verdicts(pr, er) IN
+  \A i \in DOMAIN c.scts : LET k == c.scts[i]  log == LogTable[k.log] IN
+    /\ k.form \in SigForms(log.scheme)
+    \* (a certificate without the CT extended key usage is an ordinary issuer: no final certificate corresponds)
+    /\ (~IsErr(pr) /\ ~IsErr(er) /\ (PreOf(c) = None \/ PreOf(c).eku)) =>
+          /\ ve[i] = vc[i]
+          /\ ve[i].optin <=> (k.over = "this" /\ SigFormOK(k.form, log.scheme))
+          /\ ve[i].plain <=> (ve[i].optin /\ log.compliant)
 
 Laws ==
   LET t == TBSOf(c)  pre == PreOf(c) IN
@@ -101,13 +231,14 @@ Laws ==
   /\ SameEntry(t, pre, "scts", "caKey", "preKey")
   /\ (pre # None /\ ~pre.eku => IsErr(BuildPrecertTBS(t, pre)))
   /\ LET f == Final(t, pre, "scts") IN ~IsErr(f) => ExactlyOne(f, "SCTLIST") /\ OthersUntouched(f, "SCTLIST")
-  /\ SCTListRoundTrip([i \in DOMAIN c.scts |-> SctBody[c.scts[i]]])
+  /\ SCTListRoundTrip([i \in DOMAIN c.scts |-> SctBody(c.scts[i])])
+  /\ SctLaw
 
 Tri(exts) == [i \in DOMAIN exts |-> <<exts[i].id, exts[i].crit, exts[i].val>>]
 Out(x) == IF IsErr(x) \/ x = None THEN x ELSE [x EXCEPT !.exts = Tri(@)]
 OutEntry(e) == IF IsErr(e) THEN e ELSE [e EXCEPT !.tbs = Out(@)]
 Export ==
-  LET t == TBSOf(c)  pre == PreOf(c)  f == Final(t, pre, "scts") IN
+  LET t == TBSOf(c)  pre == PreOf(c)  f == Final(t, pre, "scts")  pr == ChainEntry  er == EmbeddedEntry IN
   PrintT(<<"CASE", ToJson([c |-> c, t |-> Out(t), pre |-> pre,
                            build |-> Out(BuildPrecertTBS(t, pre)),
                            rmpoison |-> Out(RemoveExt(t, "POISON")),
@@ -115,8 +246,16 @@ Export ==
                            final |-> Out(f),
                            finalrmsct |-> Out(IF IsErr(f) THEN f ELSE RemoveExt(f, "SCTLIST")),
                            clause |-> AkiClause(t, pre),
-                           chain |-> OutEntry(IF pre = None THEN PrecertRouteEntry(t, None, "caKey", "rootKey")
-                                              ELSE PrecertRouteEntry(t, pre, "preKey", "caKey")),
-                           embedded |-> OutEntry(IF IsErr(f) THEN f ELSE EmbeddedRouteEntry(f, "caKey"))])>>)
+                           chain |-> OutEntry(pr),
+                           embedded |-> OutEntry(er),
+                           sctchain |-> Verdicts(pr, pr),
+                           sctemb |-> Verdicts(pr, er)])>>)
+\* the tables the harness materializes from (serial contents octets) or checks its own encoder against (lengths, arcs)
+FixedArcs == [a840 |-> 840, a1079 |-> 1079, a10045 |-> 10045, a11129 |-> 11129, a99999 |-> 99999, a113549 |-> 113549]
+ASSUME PrintT(<<"DER", ToJson([serials |-> SerialOctets,
+                               lens |-> [t \in DOMAIN ULen |-> [n |-> ULen[t], octets |-> LenOctets(ULen[t])]],
+                               arcs |-> [t \in DOMAIN UArc |-> [n |-> UArc[t], octets |-> ArcOctets(UArc[t])]] @@
+                                        [t \in DOMAIN FixedArcs |-> [n |-> FixedArcs[t], octets |-> ArcOctets(FixedArcs[t])]],
+                               logs |-> LogTable])>>)
 NumCases == Cardinality(Cases)
 =============================================================================
